@@ -1093,3 +1093,59 @@ func c03ReferenceParsersVerbatim(ctx *Ctx, r *Report) {
 	r.Count("fields of parsed references", n)
 	r.Floor("fields of parsed references", 5)
 }
+
+// c03MapOrderIn runs the map-iteration analysis over the packages with the given module-relative prefixes only: the
+// properties about transformations (C15) and veneers (C17) quantify over "all sequences of rules", whose order must not be
+// the runtime's.
+func c03MapOrderIn(ctx *Ctx, r *Report, prefixes []string) {
+	st := &c03State{ctx: ctx, r: r, eng: newEffectsEngine(ctx), mapOrdered: map[*types.Func]string{}, exemptSeen: map[string]bool{}}
+	var sites []mapSite
+	for _, p := range ctx.Pkgs {
+		rel := ctx.RelPkg(p.PkgPath)
+		match := false
+		for _, pre := range prefixes {
+			if strings.HasPrefix(rel, pre) {
+				match = true
+			}
+		}
+		if !match {
+			continue
+		}
+		for _, f := range p.Syntax {
+			for _, d := range f.Decls {
+				fd, ok := d.(*ast.FuncDecl)
+				if !ok || fd.Body == nil {
+					continue
+				}
+				fobj, _ := p.TypesInfo.Defs[fd.Name].(*types.Func)
+				ast.Inspect(fd.Body, func(m ast.Node) bool {
+					rs, ok := m.(*ast.RangeStmt)
+					if !ok {
+						return true
+					}
+					t := p.TypesInfo.TypeOf(rs.X)
+					if t == nil {
+						return true
+					}
+					if _, isMap := t.Underlying().(*types.Map); !isMap {
+						return true
+					}
+					s := mapSite{pkg: p, fd: fd, fobj: fobj, rs: rs}
+					if id, ok := rs.Key.(*ast.Ident); ok && id.Name != "_" {
+						s.key = objOf(p.TypesInfo, id)
+					}
+					if id, ok := rs.Value.(*ast.Ident); ok && id.Name != "_" {
+						s.val = objOf(p.TypesInfo, id)
+					}
+					sites = append(sites, s)
+					return true
+				})
+			}
+		}
+	}
+	r.Count("map-range sites in "+strings.Join(prefixes, ", "), len(sites))
+	for _, s := range sites {
+		st.classify(s)
+	}
+	st.checkMapOrderedCallers()
+}
